@@ -126,9 +126,9 @@ def _compare(res, want, o, dts, tol, f):
         return "mismatch", f"shape: numpy {tuple(want.shape)} != impl {tuple(res.shape)}", {}
     if o.get("bool") != (res._array.dtype.kind == "b"):
         return "mismatch", f"dtype: {'boolean' if o.get('bool') else 'numeric'} result expected, got {res._array.dtype}", {}
-    if not o.get("bool") and res._array.dtype != want.dtype and not tol and scale == 1.0 and f not in ("concatenate", "stack", "hstack", "vstack"):
-        if res._array.dtype.kind != want.dtype.kind:
-            return "mismatch", f"dtype: numpy gives {want.dtype}, impl {res._array.dtype}", {}
+    if not o.get("bool") and res._array.dtype.kind != want.dtype.kind and not o.get("converted") and scale == 1.0:
+        # "values are what numpy returns on the raw values": without a unit conversion the dtype kind is numpy's
+        return "mismatch", f"dtype: numpy gives {want.dtype}, impl {res._array.dtype}", {}
     eps = max(EPS[d] for d in dts) * 64 + tol
     x = np.asarray(res._array, dtype=float).ravel()
     y = np.asarray(want, dtype=float).ravel() * scale
